@@ -6,12 +6,12 @@ From SP Require Export Base.Outcome.
    to drop after a match *)
 Fixpoint split_go (sep s : str) (skip : nat) (cur : str) : list str :=
   match s with
-  | [] => [rev cur]
+  | [] => [frev cur]
   | c :: s' =>
       match skip with
       | S k => split_go sep s' k cur
       | O => if is_prefix sep s
-             then rev cur :: split_go sep s' (length sep - 1) []
+             then frev cur :: split_go sep s' (length sep - 1) []
              else split_go sep s' 0 (c :: cur)
       end
   end.
@@ -27,8 +27,8 @@ Definition split (s sep : str) : list str :=
 (* the memchr path: cut at every occurrence of one (ASCII) character *)
 Fixpoint split_char_go (c : N) (s : str) (cur : str) : list str :=
   match s with
-  | [] => [rev cur]
-  | d :: s' => if N.eqb c d then rev cur :: split_char_go c s' [] else split_char_go c s' (d :: cur)
+  | [] => [frev cur]
+  | d :: s' => if N.eqb c d then frev cur :: split_char_go c s' [] else split_char_go c s' (d :: cur)
   end.
 Definition split_char (s : str) (c : N) : list str := split_char_go c s [].
 
